@@ -44,6 +44,12 @@ Conventions
   (below 2⁻⁵³ for `max ≤ 2048`), so `fuel = lemireFuel = 64` is never exhausted in practice; theorems
   are stated for every successful run and `u64LessThan_fuel_mono` shows that more fuel never changes
   a successful result.  Fuel `f` allows the initial draw plus `f` redraws.
+* **When you consume an `Option`-valued draw in a model, use `Option.bind` / `Option.map` (or `do` notation),
+  not `match … with | some (v, g) => …`.**  A `match` whose discriminant is e.g. `u64LessThan fuel m g` makes
+  `split`/`cases` proofs send the kernel into weak-head normalisation of symbolic `UInt64` arithmetic
+  ("(kernel) deep recursion detected" or a hang).  With `bind`/`map` proofs go through the rewriting lemmas
+  `Option.bind_eq_some_iff` / `Option.map_eq_some_iff` and never reduce the draw.  Total draws (`u64`, `f53`,
+  `f64`, `Uniform.sample`) return pairs and can be destructured freely.
 * Signed integers are modelled as `Int`; arguments of `i64…` functions must lie in
   `[-2^63, 2^63)` (they are `i64` in Rust).  Results do.
 * Integer to float: `DiscreteUniform.sample` casts with `IntCast α` (`Float.ofInt` at `Float`, which is
@@ -130,10 +136,7 @@ def f64LessThan {α : Type} [NatCast α] [Div α] [Mul α] [Zero α] [LT α] [De
 /-- `Rng::f64_in_range`: `assert!(max > min)` then `min + f64_less_than(max - min)`. -/
 def f64InRange {α : Type} [NatCast α] [Div α] [Mul α] [Add α] [Sub α] [Zero α] [LT α] [DecidableLT α]
     (min max : α) (g : Rng) : Option (α × Rng) :=
-  if min < max then
-    match f64LessThan (max - min) g with
-    | some (v, g) => some (min + v, g)
-    | none => none
+  if min < max then (f64LessThan (max - min) g).map fun p => (min + p.1, p.2)
   else none
 
 /-- The `while lo < t` loop of Lemire's method, entered after a first candidate was rejected:
@@ -156,18 +159,14 @@ def u64LessThan (fuel : Nat) (max : UInt64) (g : Rng) : Option (UInt64 × Rng) :
 
 /-- `Rng::i64_less_than(max)`: `u64_less_than(max as u64) as i64`. -/
 def i64LessThan (fuel : Nat) (max : Int) (g : Rng) : Option (Int × Rng) :=
-  match u64LessThan fuel (asU64 max) g with
-  | some (v, g) => some (asI64 v, g)
-  | none => none
+  (u64LessThan fuel (asU64 max) g).map fun p => (asI64 p.1, p.2)
 
 /-- `Rng::u64_in_range(min, max)`, both ends included: `assert!(max > min)`;
 `min + u64_less_than(max + 1 - min)` (`max + 1` overflows, i.e. panics, for `max = u64::MAX`). -/
 def u64InRange (fuel : Nat) (min max : UInt64) (g : Rng) : Option (UInt64 × Rng) :=
   if min < max then
     if max.toNat + 1 < 2 ^ 64 then
-      match u64LessThan fuel (max + 1 - min) g with
-      | some (v, g) => some (min + v, g)
-      | none => none
+      (u64LessThan fuel (max + 1 - min) g).map fun p => (min + p.1, p.2)
     else none
   else none
 
@@ -176,9 +175,7 @@ def u64InRange (fuel : Nat) (min max : UInt64) (g : Rng) : Option (UInt64 × Rng
 def i64InRange (fuel : Nat) (min max : Int) (g : Rng) : Option (Int × Rng) :=
   if min < max then
     if max + 1 < 2 ^ 63 ∧ max + 1 - min < 2 ^ 63 then
-      match i64LessThan fuel (max + 1 - min) g with
-      | some (v, g) => some (min + v, g)
-      | none => none
+      (i64LessThan fuel (max + 1 - min) g).map fun p => (min + p.1, p.2)
     else none
   else none
 
@@ -194,12 +191,7 @@ def drawN {β : Type} (f : Rng → β × Rng) : Nat → Rng → List β × Rng
 def drawN? {β : Type} (f : Rng → Option (β × Rng)) : Nat → Rng → Option (List β × Rng)
   | 0, g => some ([], g)
   | n + 1, g =>
-    match f g with
-    | none => none
-    | some (x, g) =>
-      match drawN? f n g with
-      | none => none
-      | some (xs, g) => some (x :: xs, g)
+    (f g).bind fun p => (drawN? f n p.2).map fun q => (p.1 :: q.1, q.2)
 
 end Rng
 
@@ -215,9 +207,7 @@ def sampleInt (fuel : Nat) (lower upper : Int) (g : Rng) : Option (Int × Rng) :
 
 /-- `DiscreteUniform::sample`: `… as f64`. -/
 def sample {α : Type} [IntCast α] (fuel : Nat) (lower upper : Int) (g : Rng) : Option (α × Rng) :=
-  match sampleInt fuel lower upper g with
-  | some (i, g) => some ((i : α), g)
-  | none => none
+  (sampleInt fuel lower upper g).map fun p => ((p.1 : α), p.2)
 
 /-- `Distribution1D::sample_n` for `DiscreteUniform`, integer version. -/
 def sampleIntN (fuel : Nat) (lower upper : Int) (n : Nat) (g : Rng) : Option (List Int × Rng) :=
